@@ -8,17 +8,24 @@ Bounded exhaustive product, executed on the real parser:
   spellings - aliases and their abbreviations, the --t+ of list types, the --no_t of yes/no flags - with the own
   option written in every spelling, sources whose type admits None - an Optional[int] argument, the whole of an
   Optional[class] argument, an Optional parameter below a class argument - with every channel writing its value or
-  null; each bare and inside one / two levels of subcommands)
+  null, links with several sources of which some are group-valued - kind, position and annotation of every source;
+  each bare and inside one / two levels of subcommands)
   x which channels (defaults, environment, --config, argv, parse_object, parse_string, parse_env) supply every
     source leaf - all subsets per leaf, a different value per channel
   x how the class / the list of classes is configured (channel, class, class change)
   x how the target itself is additionally supplied (own option, config key, environment, object key nested and
     dotted, enclosing group JSON, enclosing class spec)
 
+  x the history of the parser object (fresh; links declared only after the parser has parsed once; links declared
+    on both sides of a parse; the same call made twice)
+plus the argument that holds the target given as a path to its own config file (argv / environment / inside a config
+file), serialised with the multi-file save(),
+
 and, on one fixed parser layout, every ordered set of up to two (thorough: three) links out of a catalogue of 22
 (chains, double targets, links onto their own source, links whose keys are nested in one another), plus every
 ordered set of three (thorough: four) distinct links whose order of application is constrained by at least two
-(three) dependencies through nested keys - dependency chains and fans in every declaration order.
+(three) dependencies through nested keys - dependency chains and fans in every declaration order; every ordered
+pair also on ONE parser that parses after every single declaration and then takes all inputs in a row.
 
 Oracle after every parse: acceptance as the statement fixes it (option of a plain target rejected; target never
 required); cfg[target] == f(final source values) for every link, every list item; dump() (yaml, json; also
@@ -35,7 +42,7 @@ META = {
     "level": "exploration",
     "engine": "bounded exhaustive product enumeration on the real parser (mc/checks/c15.py, c15_shapes.py)",
     "technique": "exhaustive product of link shapes x per-source channel subsets x class configurations x ways of "
-    "supplying the target, plus all ordered link sets of size <= 2/3 from a catalogue and all order-constrained sets of "
+    "supplying the target x parser histories (fresh / links declared after a parse / repeated call), plus all ordered link sets of size <= 2/3 from a catalogue and all order-constrained sets of "
     "size 3/4; reference model f(final sources), "
     "structural dump inspection, differential re-parse",
     "level_text": "Every member of the stated finite product is executed on the unmodified library: each case builds "
@@ -48,7 +55,7 @@ META = {
     "independent reader of dumps, the rendering of a case into argv / environment / config text (guarded: every "
     "channel must be observed to win for every shape family). Bounds: one to two source leaves per link, int / "
     "Dict[str,int] / class-spec / None values, subcommand depth <= 2, link sets of size <= 2 (thorough: 3) and "
-    "order-constrained ones of size 3 (thorough: 4), apply_on='parse' "
+    "order-constrained ones of size 3 (thorough: 4), histories of one earlier parse per declaration, apply_on='parse' "
     "only (instantiation links are C16).",
     "design_ref": "DESIGN.md §5 C15",
 }
